@@ -46,7 +46,7 @@ TRUSTED = [
 ]
 ASSUMPTIONS = ["the body keeps the field names (it can only change the objects the fields refer to): same_shape",
                "values are ints, strings, lists/tuples/sets/dicts/attrs objects of such, integer ndarrays, files"]
-RULE = ("cases = (value kind in list/nested/dict/set/obj/arr/pyfile/pyfile_copy/shfile/shfile_copy) x (mutation incl. "
+RULE = ("cases = (value kind in list/nested/dict/set/attrs obj/plain-class obj/tuple holding list/nested tuple+dict/arr/pyfile/pyfile_copy/shfile/shfile_copy) x (mutation incl. "
         "none and a rewrite that changes nothing) x worker (debug, cf) x raise_errors (default, True, False) x small "
         "parameters; non-trivial = the body really changes the value or the input is a file; distinct by "
         "(kind, mutation, worker, raise_errors, parameter)")
@@ -62,6 +62,10 @@ KINDS = {
     "dict": ["none", "add", "change", "del"],
     "set": ["none", "add", "discard"],
     "obj": ["none", "attr", "inner"],
+    # hashable-yet-mutable values: an instance of an ordinary class (identity __hash__), tuples holding lists/dicts
+    "plain": ["none", "attr", "inner"],
+    "tup": ["none", "inner"],
+    "tupnest": ["none", "deep", "dictin"],
     "arr": ["none", "elem", "reshape"],
     "pyfile": ["none", "append", "rewrite_same"],
     "pyfile_copy": ["none", "append"],
@@ -96,11 +100,22 @@ def _runner(inp, outp):
         u: int
         v: list
 
+    class Plain:                      # not attrs / dataclass: hashable by identity, mutable
+        def __init__(self, u, v):
+            self.u, self.v = u, v
+
     def apply(x, mode):
         """the body's effect, in place"""
         if mode == "none":
             return
-        if isinstance(x, list):
+        if isinstance(x, tuple):
+            if mode == "inner":
+                x[0].append(5)
+            elif mode == "deep":
+                x[1][1].append(7)
+            elif mode == "dictin":
+                x[0]["zz"] = 1
+        elif isinstance(x, list):
             if mode == "append":
                 x.append(99)
             elif mode == "setitem":
@@ -177,6 +192,12 @@ def _runner(inp, outp):
             return {a, a + 1}
         if kind == "obj":
             return Obj(u=a, v=[a + 1])
+        if kind == "plain":
+            return Plain(a, [a + 1])
+        if kind == "tup":
+            return ([a], a + 1)
+        if kind == "tupnest":
+            return ({"p": a}, (a, [a + 1]))
         if kind == "arr":
             return np.arange(6).reshape(2, 3) + a
         p = os.path.join(base, "input_%d.txt" % a)
@@ -448,7 +469,7 @@ def to_terms(cases, obs):
 def run(ctx):
     os.makedirs(ctx.scratch.dir, exist_ok=True)
     rng = ctx.rng
-    n = ctx.budget(50, 300)
+    n = ctx.budget(90, 400)
     cases = [{k: c[k] for k in ("kind", "mode", "worker", "re", "a")} for c in ctx.corpus() if "kind" in c]
     # every (kind, mode) once under the debug worker with raise_errors, then random
     for kind, modes in KINDS.items():
